@@ -11,7 +11,8 @@ LEAN_MODULES = ['VotelibProofs.Props.C05']
 GEN_MODULES = []
 REQUIRED = ['cw_copeland', 'cw_minimax_wv', 'cw_minimax_margins', 'cw_schulze', 'cw_benham', 'cw_tideman',
             'cw_rankedpairs_partial', 'cw_kemeny_partial', 'kemeny_is_argmax', 'kemeny_refusal',
-            'copeland_in_smith', 'schulze_in_smith', 'kemeny_in_smith', 'copeland_defining', 'minimax_defining', 'worstDefeat_is_max',
+            'copeland_in_smith', 'schulze_in_smith', 'kemeny_in_smith', 'rankedpairs_in_smith', 'tideman_in_smith',
+            'lockPairs_acyclic', 'isPath_iff', 'benham_in_smith_witness', 'copeland_defining', 'minimax_defining', 'worstDefeat_is_max', 'widestPaths_correct', 'winWeight_is_win_count',
             'no_candidate_dropped_copeland', 'no_candidate_dropped_minimax', 'no_candidate_dropped_schulze',
             'cw_rankedpairs_witness', 'cw_kemeny_witness', 'rankedpairs_dropped_witness', 'minimax_never_loser_fixed',
             'benham_elimination_tie_witness', 'tideman_elimination_tie_witness', 'tideman_last_tie_witness']
@@ -19,8 +20,8 @@ UNPROVED = ['cw_rankedpairs (rankedPairs sc v 1 = ok [w]): FALSE as stated on th
             'although a Condorcet winner exists); proved instead: cw_rankedpairs_partial (whenever it answers, it answers [w])',
             'cw_kemeny (kemenyYoung v 1 = ok [w]): FALSE as stated on the current code (cw_kemeny_witness: refusal when a lower '
             'place ties); proved instead: cw_kemeny_partial (elects exactly w or refuses with NotImplementedError)',
-            'lockPairs_acyclic', 'widestPaths_correct (value = max over paths of min edge)',
-            'rankedpairs_in_smith', 'benham_in_smith', 'tideman_in_smith',
+            'benham_in_smith: FALSE on the current code (benham_in_smith_witness: an elimination tie removes every tied '
+            'candidate, here the whole Smith set)',
             'rankedpairs no_candidate_dropped: FALSE (rankedpairs_dropped_witness)',
             'copeland second-order defining computation (only the first-order scores are characterised: copeland_defining)']
 REQUIRED_COUNTERS = ['converter', 'has_cw', 'sparse_never_loser', 'all_tied', 'cycle', 'from_ranked', 'uab_true', 'uab_false',
@@ -79,6 +80,7 @@ DIRECTED_PROFILES = [
     ([[[[0, 1], 2], '2'], [[2, 0], '1'], [[1], '1']], 'p_shared_first'),
     ([[[0], '2'], [[1], '2'], [[2], '1']], 'p_bullets'),
     ([[[0], '5']], 'p_single_candidate'),
+    ([[[2, 1, 3], '1'], [[2, 1], '1'], [[1, 2, 3], '2'], [[0, 2, 1, 3], '3'], [[3, 1, 2, 0], '3']], 'p_benham_tie_drops_smith'),
 ]
 
 
@@ -478,7 +480,7 @@ LEVEL_TEXT = ('All ten registered Condorcet evaluators, the three pairwise win s
               'Copeland (both variants), minimax by winning votes and by margins, Schulze, Benham and Tideman alternative elect exactly '
               'the Condorcet winner for one seat; ranked pairs (all three scorers) and Kemeny-Young never elect anybody else (they '
               'answer [w] or refuse); Kemeny-Young answers only with the head of the unique best order; every candidate Copeland names '
-              'or Schulze names for one seat, and the first place of every Kemeny-Young answer, lies in the Smith set; Copeland ranks by wins minus losses and minimax by the worst defeat over all opponents (absent pair = 0:0); Copeland, Schulze and minimax list every '
+              'or Schulze names for one seat, and the first place of every Kemeny-Young, ranked-pairs and Tideman-alternative answer, lies in the Smith set; the locked pairs of ranked pairs are acyclic; the widest_paths table of Schulze is the max over chains of the min win count; Copeland ranks by wins minus losses and minimax by the worst defeat over all opponents (absent pair = 0:0); Copeland, Schulze and minimax list every '
               'candidate when there are as many seats as candidates.  Where the current code does not meet the '
               'property (ranked pairs and Kemeny-Young refusals with a Condorcet winner, ranked pairs dropping candidates, '
               'hybrids crashing on elimination ties) the negation is proved on a concrete witness and the defect '
